@@ -15,6 +15,7 @@ from .. import core
 from .. import cases
 from .. import annetenv as E
 from . import c07
+from .. import genrun
 
 HARDWARE = [
     ("Huawei CE6870", ()), ("Huawei NE40E", ()), ("Huawei S5700", ()), ("Arista DCS-7368", ()),
@@ -132,6 +133,27 @@ def run(ctx):
                 rec.update({"mt": [], "mt2": [], "mu": [], "cmds": [], "exc": repr(e)})
             recs.append(rec)
             ctx.count()
+            # the production path: annet.gen._old_new_per_device completes old and new itself (add_implicit), for a normal run and for
+            # `--clear` (no_new: nothing is generated); the patch between what it returns obeys the same clause
+            if k % 4 == 0 and "exc" not in rec and t:      # (an empty running config makes annet start from the vendor's initial config instead)
+                no_new = (k % 8 == 0)
+                u_eff = od() if no_new else u
+                prec = dict(rec, id=rec["id"] + ("-clear" if no_new else "-gen"), u=cases.jtree(u_eff))
+                try:
+                    gdev = genrun.Dev(hw)
+                    gdev.tags = set(tags)
+                    gen = genrun.make_generator("GenAll", genrun.tree_prog(u), "~  %global\n", hw.vendor)
+                    res = genrun.old_new(gdev, [gen], running_text=registry_connector.get().match(hw).make_formatter().join(t) if t else "",
+                                         add_implicit=True, no_new=no_new)
+                    if res.err is not None:
+                        raise res.err
+                    prec["mu"] = cases.jtree(merge_dicts(u_eff, implicit.config(u_eff, crules)))
+                    _d, p = api._diff_and_patch(E.device(hw), res.old, res.new, res.acl_rules, None, False)
+                    prec["cmds"] = cases.jpaths(fmt.cmd_paths(p))
+                    recs.append(prec)
+                    ctx.count()
+                except Exception as e:
+                    ctx.skip("production path not judged: %s" % type(e).__name__)
             if rec.get("mt") and len(rec["mt"]) > len(rec["t"]) and rec["t"]:
                 ctx.nontrivial(json.dumps([model, tags, rec["t"], rec["u"]]))
     ctx.sample({"hw": recs[0]["hw"], "t": recs[0]["t"], "completed": recs[0].get("mt")})
